@@ -1,0 +1,32 @@
+//go:build verif
+
+// Contracts for the deductive verifier in /verif (comment-only file; compiled
+// only with -tags verif and declares nothing).
+
+package natsort
+
+//@ spec isdig(b byte) bool = '0' <= b && b <= '9'
+
+//@ func isdigit
+//@   inline
+
+//@ func Less
+//@   props C20
+//@   overflow
+//@   behaviour safety:
+//@     loop 0: invariant 0 <= idx1 && idx1 <= len(str1) && 0 <= idx2 && idx2 <= len(str2)
+//@     loop 1: invariant 0 <= idx1 && idx1 <= len(str1)
+//@     loop 2: invariant 0 <= idx2 && idx2 <= len(str2)
+//@     loop 3: invariant 0 <= nonZero1 && nonZero1 <= idx1 && idx1 <= len(str1)
+//@     loop 4: invariant 0 <= nonZero2 && nonZero2 <= idx2 && idx2 <= len(str2)
+//@   behaviour irreflexive:
+//@     requires str1 == str2
+//@     ensures  !result
+//@     loop 0: invariant 0 <= idx1 && idx1 <= len(str1) && idx1 == idx2
+//@     loop 1: invariant 0 <= idx2 && idx2 <= idx1 && idx1 <= len(str1) && forall(k, idx2, idx1, str1[k] == '0')
+//@     loop 2: invariant 0 <= idx2 && idx2 <= idx1 && idx1 <= len(str1) && forall(k, idx2, idx1, str1[k] == '0')
+//@     loop 2: invariant idx1 == len(str1) || str1[idx1] != '0'
+//@     loop 3: invariant nonZero1 == nonZero2 && idx2 == nonZero2 && 0 <= nonZero1 && nonZero1 <= idx1 && idx1 <= len(str1)
+//@     loop 3: invariant forall(k, nonZero1, idx1, isdig(str1[k]))
+//@     loop 4: invariant nonZero1 == nonZero2 && 0 <= nonZero2 && nonZero2 <= idx2 && idx2 <= idx1 && idx1 <= len(str1)
+//@     loop 4: invariant forall(k, idx2, idx1, isdig(str1[k])) && (idx1 == len(str1) || !isdig(str1[idx1]))
